@@ -25,6 +25,9 @@ type Obligation struct {
 	Goal   *Term
 	Pos    string
 	Note   string
+	// Focus names the loop invariant clause this obligation re-establishes: a first attempt
+	// drops the quantified hypotheses that stem from the other invariant clauses.
+	Focus string
 }
 
 // Cover is a reachability guard: the path condition must be satisfiable together with the facts,
@@ -104,7 +107,11 @@ type Exec struct {
 	entryVals   map[types.Object]Value
 	covers      []*Cover
 	quantFact   map[*Term]bool
+	factTag     map[*Term]string
+	rangeIdx    []*Loc // hidden indices of the enclosing range loops over slices of unknown length
+	curFocus    string
 	loopEntry   *State
+	curBlock    *Block
 }
 
 func NewExec(prog *Prog, ts *TermStore) *Exec {
@@ -262,13 +269,30 @@ func (ex *Exec) assert(st *State, kind string, goal *Term, p token.Pos, note str
 	if conjunctOf(st.pc, goal, 256) {
 		goal = ex.ts.True() // already part of the path condition
 	}
-	ex.obls = append(ex.obls, &Obligation{Name: name, Kind: kind, NFacts: len(ex.facts), PC: st.pc, Goal: goal, Pos: ps, Note: note})
+	ex.obls = append(ex.obls, &Obligation{Name: name, Kind: kind, NFacts: len(ex.facts), PC: st.pc, Goal: goal, Pos: ps, Note: note, Focus: ex.curFocus})
 	// later obligations on this path may rely on it
-	ex.facts = append(ex.facts, ex.ts.Implies(st.pc, goal))
+	f := ex.ts.Implies(st.pc, goal)
+	ex.facts = append(ex.facts, f)
+	if ex.curFocus != "" {
+		ex.tagFact(f, ex.curFocus+".post")
+	}
 }
 
 func (ex *Exec) assume(st *State, fact *Term) {
-	ex.facts = append(ex.facts, ex.ts.Implies(st.pc, fact))
+	f := ex.ts.Implies(st.pc, fact)
+	ex.facts = append(ex.facts, f)
+	if ex.curFocus != "" {
+		ex.tagFact(f, ex.curFocus)
+	}
+}
+
+func (ex *Exec) tagFact(f *Term, tag string) {
+	if ex.factTag == nil {
+		ex.factTag = map[*Term]string{}
+	}
+	if _, have := ex.factTag[f]; !have {
+		ex.factTag[f] = tag
+	}
 }
 
 // mergeStates joins two states; c selects a (else b).
